@@ -233,7 +233,9 @@ class Own:
                 return e
             # store of a tracked object somewhere else: escape
             ra = ap(r) if isinstance(r, dict) else None
-            if ra in tv and obj_of(env, ra):
+            if ra in tv and obj_of(env, ra) and tgt_ap is not None and (tgt_ap.startswith(ra + '->') or tgt_ap.startswith(ra + '.')):
+                pass        # stored into itself
+            elif ra in tv and obj_of(env, ra):
                 oid = obj_of(env, ra)
                 s = st(env, oid)
                 ns = spec.store_effect(tgt_node, s, env, A) if hasattr(spec, 'store_effect') else None
@@ -243,7 +245,8 @@ class Own:
                     setst(e, oid, ns)
             elif isinstance(r, dict) and r.get('k') == 'bin' and r.get('op') in ('+', '-'):
                 ra = ap(r['l'])
-                if ra in tv and obj_of(env, ra) and st(env, obj_of(env, ra)) == 'O':
+                self_store = ra is not None and tgt_ap is not None and (tgt_ap.startswith(ra + '->') or tgt_ap.startswith(ra + '.'))
+                if ra in tv and obj_of(env, ra) and st(env, obj_of(env, ra)) == 'O' and not self_store:
                     setst(e, obj_of(env, ra), 'E')
             return e
 
